@@ -3,6 +3,7 @@
 import itertools
 import random
 
+from .. import suiteengine
 from ..common import ALL_ALGOS, new_scratch, rmtree, split_seeds, clear_atexit_tmp_handlers, ncpu
 from ..gen import make_content, op_shape, chunk
 from ..model import SPELLINGS
@@ -64,7 +65,7 @@ def shards(tier, seed):
         for k in sorted(strata):
             pick += rng.sample(strata[k], min(3, len(strata[k])))
         cases = pick
-    return [(c,) for c in chunk(cases, ncpu() * 2)]
+    return [(c,) for c in chunk(cases, ncpu() * 2)] + [("suite",)]
 
 
 def min_required(tier):
@@ -73,6 +74,9 @@ def min_required(tier):
 
 def run_shard(cases):
     res = ShardResult()
+    if cases == "suite":
+        suiteengine.run(res, ID)
+        return res
     scratch = new_scratch("c06")
     contents = {k: make_content(v["cseed"], v["size"]) for k, v in SPEC.items()}
     try:
